@@ -151,6 +151,12 @@ def reader_rules(ctx, R):
                 or (isinstance(x, ast.Call) and isinstance(x.func, ast.Attribute) and x.func.attr in ("clear", "extend", "append", "pop")
                     and isinstance(x.func.value, ast.Attribute) and mangle(R.cls.name, x.func.value.attr) == R.buffer_attr)
                 or (isinstance(x, ast.AugAssign) and isinstance(x.target, ast.Attribute) and mangle(R.cls.name, x.target.attr) == R.buffer_attr)]
+            # ... on a path that runs from the binding to the modification without the attribute being bound to another object
+            rebinds = [x for st_ in walk_no_nested(blk.node) if isinstance(st_, ast.Assign) and any(
+                isinstance(t, ast.Attribute) and mangle(R.cls.name, t.attr) == R.buffer_attr for t in st_.targets) for x in cfg.nodes_for(st_)]
+            bind_nodes = cfg.nodes_for(a)
+            inplace = [x for x in inplace if any(cfg.path_exists(b, m, avoid=rebinds, exc=False)
+                                                 for b in bind_nodes for m in (cfg.node_containing(x) if isinstance(x, ast.Call) else cfg.nodes_for(x)))]
             if inplace:
                 ctx.violation("M3", blk, "result-aliases-buffer", "%s binds the buffer object itself (%s) and then modifies the buffer in place (%s): "
                               "the bytes already taken change under the result" % (blk.qualname, norm(a), norm(inplace[0])[:40]), node=a,
@@ -312,9 +318,31 @@ def reader_rules(ctx, R):
         for c in self_calls(f, blk.name):
             calls.append((f, c))
     ctx.need("M5", "block-reader call sites", len(calls), 2)
+    def crlf_len(f, a):
+        k = const_value(ctx.program, f, a) if a is not None else TOP
+        if k is TOP and isinstance(a, ast.Call) and call_name(a) == "len" and a.args:
+            kv = const_value(ctx.program, f, a.args[0])
+            k = len(kv) if kv is not TOP and kv == b"\r\n" else TOP
+        return k == 2
+
+    def follows_exact_literal_read(f, c):
+        # `text = read_block(n)` immediately followed by `read_block(len(CRLF))`: n + 2 octets, read in two steps
+        st = stmt_of(c)
+        par = getattr(st, "_parent", None)
+        for fld in ("body", "orelse", "finalbody"):
+            lst = getattr(par, fld, None)
+            if isinstance(lst, list) and st in lst and lst.index(st) > 0:
+                prev = lst[lst.index(st) - 1]
+                for c2 in ast.walk(prev):
+                    if isinstance(c2, ast.Call) and any(c2 is x for _, x in calls) and c2.args and _is_size_int(ctx, R, f, c2.args[0], sizepat[0]):
+                        return True
+        return False
     for f, c in calls:
         a = c.args[0] if c.args else None
         verdict = size_arg_ok(ctx, R, f, a, sizepat[0])
+        if verdict is not True and crlf_len(f, a) and follows_exact_literal_read(f, c):
+            ctx.holds("M5", "%s: %s reads the CRLF that follows the literal read just before" % (f.qualname, norm(c)))
+            continue
         if verdict is True:
             ctx.holds("M5", "%s: %s" % (f.qualname, norm(c)))
         else:
@@ -533,16 +561,50 @@ def check_split(ctx, R, lin):
         ctx.violation("M4", lin, "delimiter-not-crlf", "the line delimiter is %r, not CRLF" % (delim,), node=lin.node)
         return
     got_prefix = got_rest = False
-    for n in walk_no_nested(lin.node):
-        if isinstance(n, ast.Assign) and isinstance(n.value, ast.Subscript) and is_buf(n.value.value) \
-                and isinstance(n.value.slice, ast.Slice):
-            sl = n.value.slice
+    partial = None
+
+    def later_cut(n):
+        # another assignment cutting the buffer follows in the same block
+        return any(isinstance(x, ast.Assign) and x.lineno > n.lineno and any(is_buf(t) for t in x.targets) and isinstance(x.value, ast.Subscript)
+                   and is_buf(x.value.value) for x in walk_no_nested(lin.node))
+    ordered = sorted((x for x in walk_no_nested(lin.node) if hasattr(x, "lineno")), key=lambda x: x.lineno)
+    for n in ordered:
+        # the rest kept by deleting the prefix in place: del buffer[:pos + len(delimiter)]
+        if isinstance(n, ast.Delete):
+            for t in n.targets:
+                if isinstance(t, ast.Subscript) and is_buf(t.value) and isinstance(t.slice, ast.Slice) and t.slice.lower is None \
+                        and t.slice.upper is not None and t.slice.step is None:
+                    k = offset_from(ctx, lin, t.slice.upper, pos_var)
+                    if k == len(delim):
+                        got_rest = True
+                    else:
+                        ctx.violation("M4", lin, "rest-offset", "after a line is taken the buffer loses its first %s bytes, not position + %d"
+                                      % (norm(t.slice.upper), len(delim)), node=n,
+                                      witness="every following line starts with a stray byte or loses one")
+        val = n.value if isinstance(n, ast.Assign) else None
+        if isinstance(val, ast.Call) and isinstance(val.func, ast.Name) and val.func.id in ("bytes", "bytearray") and len(val.args) == 1 \
+                and not val.keywords:
+            val = val.args[0]  # a copy of the slice
+        if isinstance(n, ast.Assign) and isinstance(val, ast.Subscript) and is_buf(val.value) \
+                and isinstance(val.slice, ast.Slice):
+            sl = val.slice
             if sl.lower is None and isinstance(sl.upper, ast.Name) and sl.upper.id == pos_var and sl.step is None:
                 got_prefix = True
             elif sl.upper is None and sl.lower is not None and sl.step is None and any(is_buf(t) for t in n.targets):
                 k = offset_from(ctx, lin, sl.lower, pos_var)
+                if k is None and partial is not None:
+                    # a second cut right after the first: buffer = buffer[pos:] ... buffer = buffer[len(CRLF):]
+                    c2 = const_value(ctx.program, lin, sl.lower)
+                    if c2 is TOP and isinstance(sl.lower, ast.Call) and call_name(sl.lower) == "len" and sl.lower.args:
+                        kv = const_value(ctx.program, lin, sl.lower.args[0])
+                        c2 = len(kv) if kv is not TOP else TOP
+                    if isinstance(c2, int):
+                        k = partial + c2
+                        partial = None
                 if k == len(delim):
                     got_rest = True
+                elif k is not None and 0 <= k < len(delim) and partial is None and later_cut(n):
+                    partial = k
                 else:
                     ctx.violation("M4", lin, "rest-offset", "after a line is taken the buffer keeps bytes from offset %s, not from "
                                   "position + %d" % (norm(sl.lower), len(delim)), node=n,
